@@ -1,6 +1,8 @@
 package main
 
 import (
+	"github.com/wormhole-foundation/example-near-light-client/variables"
+	"github.com/consensys/gnark/frontend"
 	"os"
 	"encoding/json"
 	"fmt"
@@ -26,6 +28,33 @@ func leadingZerosBody(common *types.CommonCircuitData, b uint64) func(chip *gl.C
 		cfg.ProofOfWorkBits = b
 		f(fc, x, cfg)
 	}
+}
+
+// powThroughVerify runs fri.(*Chip).VerifyFriProof for a description with the given reduction steps, no query
+// round and difficulty b, with x as the proof-of-work response: the response check is then the only
+// thing VerifyFriProof has to enforce.
+func powThroughVerify(api frontend.API, x gl.Variable, b uint64, arity []uint64) {
+	var common types.CommonCircuitData
+	deg := uint64(2)
+	for _, a := range arity {
+		deg += a
+	}
+	common.DegreeBits = deg
+	common.FriParams = types.FriParams{Config: types.FriConfig{RateBits: 3, CapHeight: 0, ProofOfWorkBits: b, NumQueryRounds: 0}, DegreeBits: deg, ReductionArityBits: arity}
+	common.Config.FriConfig = common.FriParams.Config
+	fc := fri.NewChip(api, &common, &common.FriParams)
+	var proof variables.FriProof
+	for i := 0; i < common.FriParams.FinalPolyLen(); i++ {
+		proof.FinalPoly.Coeffs = append(proof.FinalPoly.Coeffs, gl.ZeroExtension())
+	}
+	proof.PowWitness = gl.Zero()
+	ch := variables.FriChallenges{FriAlpha: gl.OneExtension(), FriPowResponse: x}
+	for range arity {
+		proof.CommitPhaseMerkleCaps = append(proof.CommitPhaseMerkleCaps, variables.FriMerkleCap{frontend.Variable(0)})
+		ch.FriBetas = append(ch.FriBetas, gl.OneExtension())
+	}
+	op := fri.Openings{Batches: []fri.OpeningBatch{{Values: []gl.QuadraticExtensionVariable{gl.OneExtension()}}, {Values: []gl.QuadraticExtensionVariable{gl.OneExtension()}}}}
+	fc.VerifyFriProof(fri.InstanceInfo{}, op, &ch, nil, &proof)
 }
 
 func runC14(r *Run) {
@@ -90,6 +119,18 @@ func runC14(r *Run) {
 		}
 		rangeLemmas(r, cfg, items)
 		r.Discharge()
+		if kind == "bitdecomp" {
+			// the same through VerifyFriProof, for descriptions with no, one and two reduction steps (the check must
+			// not depend on the presence of folding)
+			var its []rangeItem
+			for _, ar := range [][]uint64{{}, {1}, {4, 4}} {
+				ar := ar
+				its = append(its, rangeItem{name: fmt.Sprintf("pow through VerifyFriProof[%s,b=16,%d reduction steps]", cfg, len(ar)), bound: pow2(48), gadget: fmt.Sprintf("PowVerify%d", len(ar)), n: 48,
+					body: func(chip *gl.Chip, x gl.Variable) { powThroughVerify(cur.Self, x, 16, ar) }})
+			}
+			rangeLemmas(r, cfg, its)
+			r.Discharge()
+		}
 	}
 	r.Extra["definition_time_refusals"] = refusals
 
